@@ -9,6 +9,8 @@ import itertools
 import json
 import os
 import re
+import shutil
+import tempfile
 
 from report import AnalysisError, VERIF
 from pyfront import Repo, canon, attr_accesses, qualname, enclosing_func, enclosing_class, set_parents
@@ -16,7 +18,8 @@ from pyutil import rel
 from consteval import Ev, Unknown, Raised, _FALL
 import exprnf as X
 from exprnf import C, V
-from cfront import TU, kids, kind, strip, walk, ctext, array_extent, calls_to, call_args
+from cfront import (TU, CCFG, kids, kind, strip, walk, ctext, array_extent, calls_to, call_args, type_size,
+                    sizeof_operand_type, strip_comments)
 from rules import c19 as G
 
 EXPLANATION = (
@@ -1354,6 +1357,630 @@ def r6_c_use(L, cs, rntable):
 
 
 # ------------------------------------------------------------------------------
+# R8: who writes the hopping descriptor that rfch_get_params() hands to the generator
+
+DESC = "l1s_h1"                    # struct l1s_h1 { hsn, maio, n, ma[64] } (layer1/sync.h)
+COPY_FUNCS = ("memcpy", "memmove", "__builtin_memcpy", "__builtin_memmove")
+FW_LAYER1 = "src/target/firmware/layer1"
+DESC_N_DOMAIN = (1, 64)            # the property's domain of N
+
+
+def _qt(n):
+    t = (n or {}).get("type", {})
+    return t.get("desugaredQualType") or t.get("qualType") or ""
+
+
+def _bare(qt):
+    return " ".join(w for w in qt.replace("*", " * ").split() if w not in ("const", "volatile"))
+
+
+def _is_desc(qt):
+    return _bare(qt) == "struct %s" % DESC
+
+
+def _is_desc_ptr(qt):
+    return _bare(qt) == "struct %s *" % DESC
+
+
+def _pointee_const(qt):
+    return "const" in (qt or "").split("*")[0].split()
+
+
+class _Site:
+    """what one function does to one hopping descriptor object"""
+
+    def __init__(self, obj):
+        self.obj = obj
+        self.whole = []        # (node, size expression | None): struct assignment / memcpy(&D, ...)
+        self.fields = {}       # scalar field -> [(assignment node, rhs | None)]
+        self.elems = []        # (assignment node, index expression, rhs): D.ma[i] = ...
+        self.macopies = []     # (call node, size expression): memcpy(D.ma, ...)
+        self.delegated = []    # (call node, callee): &D handed to a function of the same file taking struct l1s_h1 *
+
+    def writes(self):
+        return bool(self.whole or self.fields or self.elems or self.macopies)
+
+
+class _DescScan:
+    """Every use of an object of type struct l1s_h1 (and of pointers to one) in one function, classified by the AST
+    context of the use -- resolved through clang's types, never through names: reads, stores of a scalar field, stores
+    of ma[] elements, whole-object copies, copies into ma[], delegation to a helper of the same file, and anything else
+    (address taken, handed to a function that may write it): `escapes`, which make the function unclassifiable."""
+
+    def __init__(self, tu, f):
+        self.tu, self.f = tu, f
+        self.sites = {}
+        self.escapes = []
+        self.array_fields = {n for n, qt in tu.record_fields(DESC) if array_extent(qt) is not None}
+        for n in walk(tu.body(f)):
+            k = kind(n)
+            if k == "MemberExpr":
+                base = strip(kids(n)[0]) if kids(n) else None
+                if base is None:
+                    continue
+                if n.get("isArrow") and _is_desc_ptr(_qt(base)):
+                    self._field(n, "*" + ctext(base))
+                elif not n.get("isArrow") and _is_desc(_qt(base)):
+                    self._field(n, ctext(base))
+            if k in ("MemberExpr", "DeclRefExpr", "ArraySubscriptExpr", "UnaryOperator") and _is_desc(_qt(n)) \
+                    and n.get("valueCategory") == "lvalue" and not (k == "UnaryOperator" and n.get("opcode") != "*"):
+                self._whole(n)
+            if k == "DeclRefExpr" and _is_desc_ptr(_qt(n)):
+                self._pointer(n)
+
+    def site(self, obj):
+        return self.sites.setdefault(obj, _Site(obj))
+
+    def _up(self, n):
+        """(parent, child below it) of n, parentheses skipped"""
+        p = self.tu.parent.get(id(n))
+        while p is not None and kind(p) == "ParenExpr":
+            n, p = p, self.tu.parent.get(id(p))
+        return p, n
+
+    def _unevaluated(self, n):
+        cur = self.tu.parent.get(id(n))
+        while cur is not None and kind(cur) != "FunctionDecl":
+            if kind(cur) == "UnaryExprOrTypeTraitExpr":
+                return True
+            cur = self.tu.parent.get(id(cur))
+        return False
+
+    def _escape(self, n, what):
+        self.escapes.append("%s (line %s)" % (what, self.tu.line(n)))
+
+    def _lvalue_use(self, n, obj, text, on_store):
+        """n: an lvalue (scalar field / array element); its parent decides: read, store, or something else"""
+        p, child = self._up(n)
+        k = kind(p)
+        if k == "ImplicitCastExpr" and p.get("castKind") == "LValueToRValue":
+            return
+        if k == "BinaryOperator" and p.get("opcode") == "=" and kids(p)[0] is child:
+            on_store(p, kids(p)[1])
+        elif k == "CompoundAssignOperator" and kids(p)[0] is child:
+            on_store(p, None)
+        elif k == "UnaryOperator" and p.get("opcode") in ("++", "--"):
+            on_store(p, None)
+        else:
+            self._escape(n, "`%s` is used as operand of %s%s" % (text, k, " " + p.get("opcode") if p.get("opcode") else ""))
+
+    def _field(self, fa, obj):
+        if self._unevaluated(fa):
+            return
+        name = fa.get("name")
+        text = ctext(fa)
+        if name not in self.array_fields:
+            self._lvalue_use(fa, obj, text, lambda node, rhs: self.site(obj).fields.setdefault(name, []).append((node, rhs)))
+            return
+        p, child = self._up(fa)
+        if kind(p) == "ImplicitCastExpr" and p.get("castKind") == "ArrayToPointerDecay":
+            q, ch = self._up(p)
+            if kind(q) == "ArraySubscriptExpr" and kids(q)[0] is ch:
+                self._elem(q, obj)
+            else:
+                self._pointer_use(p, obj, name)
+        elif kind(p) == "UnaryOperator" and p.get("opcode") == "&":
+            self._pointer_use(p, obj, name)
+        else:
+            self._escape(fa, "`%s` is used as operand of %s" % (text, kind(p)))
+
+    def _elem(self, ase, obj):
+        p, child = self._up(ase)
+        if kind(p) == "UnaryOperator" and p.get("opcode") == "&":
+            if self.tu.fold(kids(ase)[1]) == 0:
+                self._pointer_use(p, obj, "ma")
+            else:
+                self._escape(ase, "address of `%s` taken" % ctext(ase))
+            return
+        idx = kids(ase)[1]
+        self._lvalue_use(ase, obj, ctext(ase), lambda node, rhs: self.site(obj).elems.append((node, idx, rhs)) if rhs is not None
+                         else self._escape(ase, "`%s` is updated in place" % ctext(ase)))
+
+    def _whole(self, x):
+        if self._unevaluated(x):
+            return
+        p, child = self._up(x)
+        k = kind(p)
+        if k == "MemberExpr" and not p.get("isArrow"):
+            return                                  # a field access: _field
+        if k == "ImplicitCastExpr" and p.get("castKind") == "LValueToRValue":
+            return                                  # the value of the whole object is read
+        if k == "BinaryOperator" and p.get("opcode") == "=" and kids(p)[0] is child:
+            self.site(ctext(x)).whole.append((p, None))
+        elif k == "UnaryOperator" and p.get("opcode") == "&":
+            self._pointer_use(p, ctext(x), None)
+        else:
+            self._escape(x, "`%s` is used as operand of %s" % (ctext(x), k))
+
+    def _pointer(self, ref):
+        """a variable of type struct l1s_h1 *: `p->f` is handled as a field access of `*p`; the pointer handed to a
+        copy function is a copy into `*p`; tests of the pointer are reads"""
+        if self._unevaluated(ref):
+            return
+        p, child = self._up(ref)
+        if not (kind(p) == "ImplicitCastExpr" and p.get("castKind") == "LValueToRValue"):
+            return                                  # the pointer variable itself is assigned / declared
+        q, ch = self._up(p)
+        while q is not None and kind(q) in ("ImplicitCastExpr", "CStyleCastExpr", "ParenExpr") and q.get("castKind") != "PointerToBoolean":
+            ch, q = q, self.tu.parent.get(id(q))
+        if kind(q) == "CallExpr" and kids(q)[0] is not ch:
+            self._pointer_use(p, "*" + ctext(ref), None)
+
+    def _pointer_use(self, ptr, obj, field):
+        """ptr: a pointer to the descriptor `obj` (field None) or to its array `field`; where does it go?"""
+        cur, p = ptr, self.tu.parent.get(id(ptr))
+        while p is not None and kind(p) in ("ImplicitCastExpr", "CStyleCastExpr", "ParenExpr"):
+            cur, p = p, self.tu.parent.get(id(p))
+        what = "`%s%s`" % (obj, "." + field if field else "")
+        if not (kind(p) == "CallExpr" and kids(p)[0] is not cur):
+            self._escape(ptr, "a pointer to %s is taken" % what)
+            return
+        i = [j for j, a in enumerate(kids(p)) if a is cur][0] - 1
+        name = ctext(kids(p)[0])
+        args = kids(p)[1:]
+        if name in COPY_FUNCS and len(args) == 3:
+            if i == 0:
+                (self.site(obj).macopies if field else self.site(obj).whole).append((p, args[2]))
+            elif i != 1:
+                self._escape(ptr, "%s is the size argument of %s()" % (what, name))
+            return
+        callee = self.tu.functions.get(name)
+        ps = self.tu.fparams(callee) if callee is not None else []
+        pt = ps[i].get("type", {}).get("qualType", "") if i < len(ps) else None
+        has_body = callee is not None and any(kind(c) == "CompoundStmt" for c in kids(callee))
+        if pt is not None and "*" in pt and _pointee_const(pt):
+            return
+        if field is None and has_body and pt is not None and _is_desc_ptr(pt):
+            self.site(obj).delegated.append((p, name))
+            return
+        if has_body and pt is not None and "*" in pt and _param_readonly(self.tu, callee, ps[i]):
+            return
+        self._escape(ptr, "%s is handed to %s(), which may write it" % (what, name))
+
+
+def _param_readonly(tu, f, param):
+    """the function only reads through its pointer parameter: every use is `p[i]` / `*p` as an rvalue or a test of p"""
+    pid = param.get("id")
+    for n in walk(tu.body(f)):
+        if kind(n) != "DeclRefExpr" or n.get("referencedDecl", {}).get("id") != pid:
+            continue
+        p = tu.parent.get(id(n))
+        if not (kind(p) == "ImplicitCastExpr" and p.get("castKind") == "LValueToRValue"):
+            return False
+        child, q = p, tu.parent.get(id(p))
+        while q is not None and kind(q) == "ParenExpr":
+            child, q = q, tu.parent.get(id(q))
+        k = kind(q)
+        if k == "ArraySubscriptExpr" and kids(q)[0] is child or k == "UnaryOperator" and q.get("opcode") == "*":
+            r = tu.parent.get(id(q))
+            while r is not None and kind(r) == "ParenExpr":
+                r = tu.parent.get(id(r))
+            if kind(r) == "ImplicitCastExpr" and r.get("castKind") == "LValueToRValue":
+                continue
+            return False
+        if k == "ImplicitCastExpr" and q.get("castKind") == "PointerToBoolean":
+            continue
+        if k in ("ConditionalOperator", "IfStmt", "WhileStmt") and kids(q)[0] is child:
+            continue
+        if k == "UnaryOperator" and q.get("opcode") == "!":
+            continue
+        if k == "BinaryOperator" and q.get("opcode") in ("==", "!=", "&&", "||"):
+            continue
+        return False
+    return True
+
+
+def _copy_loop(tu, f, store, idx):
+    """the `for` loop around an element store `D.ma[i] = ...`: (ForStmt, bound expression, 1 when the bound is inclusive,
+    constant first index) when it is `for (i = s; i < B; i++)` (or `<=`, `!=`; `i += 1`; the variable declared in the loop or before) whose body
+    executes the store once per iteration (no break / continue / return / goto, the counter written by the increment
+    only, the store not under a condition).  AnalysisError otherwise: the number of entries copied is then not known."""
+    where = "%s(): the store `%s`" % (f.get("name"), ctext(kids(store)[0]))
+    iv = strip(idx)
+    if kind(iv) != "DeclRefExpr":
+        raise AnalysisError("%s is not indexed by a loop counter; unclassifiable" % where)
+    vid = iv.get("referencedDecl", {}).get("id")
+    cur = tu.parent.get(id(store))
+    while cur is not None and kind(cur) == "CompoundStmt":
+        cur = tu.parent.get(id(cur))
+    if cur is None or kind(cur) != "ForStmt":
+        raise AnalysisError("%s is not the unconditional body of a for loop; unclassifiable" % where)
+    inner = cur["inner"]
+    init, cond, inc, body = inner[0], inner[2], inner[3], inner[4]
+
+    def is_var(n):
+        n = strip(n)
+        return kind(n) == "DeclRefExpr" and n.get("referencedDecl", {}).get("id") == vid
+    start = None
+    if init and kind(init) == "DeclStmt":
+        for d in kids(init):
+            if kind(d) == "VarDecl" and d.get("id") == vid and kids(d):
+                start = tu.fold(kids(d)[-1])
+    elif init and kind(strip(init)) == "BinaryOperator" and strip(init).get("opcode") == "=" and is_var(kids(strip(init))[0]):
+        start = tu.fold(kids(strip(init))[1])
+    if start is None or start < 0:
+        raise AnalysisError("%s: the loop does not start its counter at a constant; unclassifiable" % where)
+    c = strip(cond) if cond else None
+    if c is None or kind(c) != "BinaryOperator" or c.get("opcode") not in ("<", "<=", "!=", ">", ">="):
+        raise AnalysisError("%s: loop condition `%s` is unclassifiable" % (where, ctext(cond) if cond else ""))
+    op, (a, b) = c.get("opcode"), kids(c)
+    if is_var(b) and not is_var(a):
+        a, b, op = b, a, {"<": ">", ">": "<", "<=": ">=", ">=": "<=", "!=": "!="}[op]
+    if not is_var(a) or op not in ("<", "<=", "!="):
+        raise AnalysisError("%s: loop condition `%s` is unclassifiable" % (where, ctext(cond)))
+    i = strip(inc) if inc else None
+    step = False
+    if i is not None and kind(i) == "UnaryOperator" and i.get("opcode") == "++":
+        step = is_var(kids(i)[0])
+    elif i is not None and kind(i) == "CompoundAssignOperator" and i.get("opcode") == "+=":
+        step = is_var(kids(i)[0]) and tu.fold(kids(i)[1]) == 1
+    elif i is not None and kind(i) == "BinaryOperator" and i.get("opcode") == "=" and is_var(kids(i)[0]):
+        r = strip(kids(i)[1])
+        step = kind(r) == "BinaryOperator" and r.get("opcode") == "+" and (
+            (is_var(kids(r)[0]) and tu.fold(kids(r)[1]) == 1) or (is_var(kids(r)[1]) and tu.fold(kids(r)[0]) == 1))
+    if not step:
+        raise AnalysisError("%s: the loop does not advance its counter by 1; unclassifiable" % where)
+    for n in walk(body):
+        k = kind(n)
+        if k in ("BreakStmt", "ContinueStmt", "ReturnStmt", "GotoStmt"):
+            raise AnalysisError("%s: the loop body leaves the loop early (%s); unclassifiable" % (where, k))
+        if (k in ("BinaryOperator", "CompoundAssignOperator") and (k != "BinaryOperator" or n.get("opcode") == "=")
+                or k == "UnaryOperator" and n.get("opcode") in ("++", "--", "&")) and is_var(kids(n)[0]):
+            raise AnalysisError("%s: the loop body writes its counter; unclassifiable" % where)
+    return cur, b, 1 if op == "<=" else 0, start
+
+
+def _stored_texts(tu, f):
+    """canonical text of every lvalue the function assigns (assignment, compound assignment, ++/--, destination of a
+    copy function)"""
+    out = set()
+    for n in walk(tu.body(f)):
+        k = kind(n)
+        if (k == "BinaryOperator" and n.get("opcode") == "=") or k == "CompoundAssignOperator" or \
+                (k == "UnaryOperator" and n.get("opcode") in ("++", "--")):
+            out.add(ctext(kids(n)[0]))
+        elif k == "CallExpr" and ctext(kids(n)[0]) in COPY_FUNCS and len(kids(n)) > 1:
+            d = strip(kids(n)[1], True)
+            out.add(ctext(kids(d)[0]) if kind(d) == "UnaryOperator" and d.get("opcode") == "&" else ctext(d))
+    return out
+
+
+def _overlaps(sym, stored):
+    for t in stored:
+        for a, b in ((sym, t), (t, sym)):
+            if a == b or a.startswith(b + ".") or a.startswith(b + "->") or a.startswith(b + "["):
+                return t
+    return None
+
+
+def _symbol_types(tu, exprs, loc):
+    """canonical text -> C type of the lvalues read by the expressions (through initialised-once temporaries)"""
+    out, todo, seen = {}, list(exprs), set()
+    while todo:
+        e = todo.pop()
+        for n in walk(e):
+            if kind(n) in ("DeclRefExpr", "MemberExpr"):
+                out.setdefault(ctext(n), _qt(n).replace("const ", "").strip())
+                d = loc.get(n.get("referencedDecl", {}).get("id")) if kind(n) == "DeclRefExpr" else None
+                if d is not None and id(d) not in seen:
+                    seen.add(id(d))
+                    todo.append(kids(d)[-1])
+    return out
+
+
+def _desc_layout(tu):
+    """(size of struct l1s_h1, offset of each field, size of each field) with natural alignment of its integer members"""
+    off, offs, sizes, align = 0, {}, {}, 1
+    for name, qt in tu.record_fields(DESC):
+        sz = type_size(qt)
+        el = type_size(re.sub(r"\s*\[\d+\]", "", qt or ""))
+        if sz is None or el is None:
+            raise AnalysisError("struct %s: member `%s` of type %s; the layout is unclassifiable" % (DESC, name, qt))
+        off = (off + el - 1) // el * el
+        offs[name], sizes[name] = off, sz
+        off += sz
+        align = max(align, el)
+    return (off + align - 1) // align * align, offs, sizes
+
+
+def _callees(tu, f):
+    return {ctext(kids(c)[0]) for c in walk(tu.body(f)) if kind(c) == "CallExpr"}
+
+
+def _decide_count(K, Nn, types, prev):
+    """Is the number of ma[] entries copied (term K) at least the n stored (term Nn) whenever that n is a Mobile
+    Allocation length of the property's domain (1..64)?  Equal normal forms close it.  Otherwise both terms are folded
+    for every valuation of the (at most two, 8-bit) fields they read -- a finite domain, complete.  Returns (True, text)
+    or (False, witness text); AnalysisError when the terms read more than that or leave the folder's arithmetic."""
+    if K == Nn:
+        return True, "the number of entries copied is the n stored: %s" % _disp(G.show(K))
+    vs = sorted(variables(K) | variables(Nn), key=repr)
+    if G.heads(K) & {"call", "idx", "post", "loop"} or G.heads(Nn) & {"call", "idx", "post", "loop"}:
+        raise AnalysisError("the count `%s` / the n stored `%s` is computed by a call or read from a table" % (G.show(K)[:60], G.show(Nn)[:60]))
+    box = []
+    for v in vs:
+        r = G._CINT.get(types.get(v[1], ""))
+        if r is None or r[1] - r[0] > 255:
+            raise AnalysisError("`%s` of type `%s` has no small finite domain" % (v[1], types.get(v[1], "?")))
+        box.append(range(r[0], r[1] + 1))
+    if len(vs) > 2:
+        raise AnalysisError("the count and the n stored read %d different values" % len(vs))
+    best, k = None, 0
+    for combo in itertools.product(*box):
+        env = dict(zip(vs, combo))
+        kv, nv = eval_term(K, env), eval_term(Nn, env)
+        if kv is None or nv is None:
+            raise AnalysisError("the count `%s` / the n stored `%s` cannot be folded for %s" % (
+                G.show(K)[:60], G.show(Nn)[:60], ", ".join("%s = %d" % (v[1], env[v]) for v in vs)))
+        k += 1
+        if DESC_N_DOMAIN[0] <= nv <= DESC_N_DOMAIN[1] and kv < nv and (best is None or (nv, kv) < best[:2]):
+            best = (nv, kv, env)
+    if best is None:
+        return True, "at least the n stored for every one of %d valuations of %s (count %s, n %s)" % (
+            k, ", ".join(_disp(v[1]) for v in vs) or "constants", _disp(G.show(K)), _disp(G.show(Nn)))
+    nv, kv, env = best
+    return False, "%s: n = %d is stored but only %d of the %d entries of the Mobile Allocation are copied (ma[%d..%d] keep stale " \
+        "ARFCNs; MAI can be any of 0..%d)" % (", ".join("%s = %d" % (_disp(v[1]), env[v]) for v in vs) or "always", nv, max(kv, 0), nv,
+                                             max(kv, 0), nv - 1, nv - 1)
+
+
+def _disp(text):
+    """members of an anonymous union print as `dedicated..h1` / `req->.h1`"""
+    return text.replace("..", ".").replace("->.", "->")
+
+
+def _desc_site(L, tu, file, f, g, site, scan, writers):
+    """obligations of one (function, descriptor object) pair; see r8_descriptor_writers"""
+    fname = f.get("name")
+    obj = _disp(site.obj)
+    line = tu.line(f)
+    key = "hopping descriptor `%s` written in %s(): the write installs a complete descriptor (whole-struct copy, or hsn, maio, " \
+        "n and at least n entries of ma[] for the n stored)" % (obj, fname)
+    want = "whole struct l1s_h1, or hsn + maio + n + ma[0..n-1]"
+    size, offs, sizes = _desc_layout(tu)
+    ext = array_extent(dict(tu.record_fields(DESC)).get("ma")) or 0
+    fieldwise = bool(site.fields or site.elems or site.macopies)
+    if site.delegated and (site.writes() or len(site.delegated) > 1):
+        raise AnalysisError("%s(): `%s` is written here and handed to %s(); unclassifiable" % (fname, obj, site.delegated[0][1]))
+    if site.delegated:
+        return 0
+    if site.whole and fieldwise or len(site.whole) > 1:
+        raise AnalysisError("%s(): `%s` is copied as a whole and written field by field / twice; unclassifiable" % (fname, obj))
+    loc = G.single_def_locals(tu, f)
+    lower = lambda e: G.euclid(G.renorm(G._LocLower(tu, loc).lower(e)))
+    if site.whole:
+        node, sz = site.whole[0]
+        if sz is None:
+            L.ob("C07.R8", file, fname, key, want, "struct assignment", True, tu.line(node))
+            return 1
+        s = strip(sz)
+        if kind(s) == "UnaryExprOrTypeTraitExpr" and s.get("name") == "sizeof" and _is_desc(sizeof_operand_type(s) or ""):
+            L.ob("C07.R8", file, fname, key, want, "copy of sizeof(struct %s) bytes" % DESC, True, tu.line(node))
+            return 1
+        def fold_size(n):
+            n = strip(n)
+            v = tu.fold(n)
+            if v is not None:
+                return v
+            if kind(n) == "UnaryExprOrTypeTraitExpr" and n.get("name") == "sizeof" and _is_desc(sizeof_operand_type(n) or ""):
+                return size
+            if kind(n) == "BinaryOperator" and n.get("opcode") in ("+", "-", "*", "/"):
+                a, b = (fold_size(x) for x in kids(n))
+                if a is None or b is None or (n.get("opcode") == "/" and b <= 0):
+                    return None
+                return {"+": a + b, "-": a - b, "*": a * b, "/": a // b if b > 0 and a >= 0 else None}[n.get("opcode")]
+            return None
+        v = fold_size(sz)
+        if v is None:
+            raise AnalysisError("%s(): `%s` is copied with the size `%s`; unclassifiable" % (fname, obj, ctext(sz)[:60]))
+        n_end = offs.get("n", 0) + sizes.get("n", 1)
+        covered = max(0, min(ext, (v - offs.get("ma", 0)) // max(1, sizes.get("ma", 2) // max(ext, 1)))) if v >= n_end else None
+        if v >= size or (covered is not None and covered >= ext):
+            L.ob("C07.R8", file, fname, key, want, "copy of %d bytes (struct %s has %d)" % (v, DESC, size), True, tu.line(node))
+            return 1
+        if covered is None:
+            raise AnalysisError("%s(): `%s` is copied with %d bytes, which does not reach the field n; unclassifiable" % (fname, obj, v))
+        L.ob("C07.R8", file, fname, key, want,
+             "copy of %d bytes: n is taken over but only ma[0..%d]: for n = %d the entries ma[%d..%d] keep stale ARFCNs" % (
+                 v, covered - 1, covered + 1, covered, covered), False, tu.line(node))
+        return 1
+    # field by field
+    nst = site.fields.get("n", [])
+    copies = len(site.macopies) + (1 if site.elems else 0)
+    split = sorted((_reach_callees(tu, f) & writers) - {fname})
+    if len(nst) != 1 or nst[0][1] is None or copies > 1 or (not nst and copies):
+        raise AnalysisError("%s(): `%s` has %d stores of n and %d copies into ma[]; unclassifiable" % (fname, obj, len(nst), copies))
+    A = g.node_of(nst[0][0])
+    stored = ["n"] + sorted(k for k in site.fields if k != "n") + (["ma[]"] if copies else [])
+    missing = [k for k in ("hsn", "maio") if k not in site.fields] + ([] if copies else ["ma[]"])
+    if missing:
+        if split:
+            raise AnalysisError("%s(): `%s` gets %s here and %s() of the same file writes a descriptor too; a sequence split over "
+                                "functions is unclassifiable" % (fname, obj, stored, split[0]))
+        L.ob("C07.R8", file, fname, key, want, "n is stored (`%s`) but not %s: the descriptor keeps the previous %s" % (
+            _disp(ctext(nst[0][1]))[:60], " / ".join(missing), " / ".join(missing)), False, tu.line(nst[0][0]))
+        return 1
+    # the branch edges every path to a node takes; leaving an earlier loop is not a condition of what follows it
+    gset = lambda node: {(c.id, repr(l)) for c, l in g.guards(node)
+                         if not (kind(c.ast) in ("ForStmt", "WhileStmt", "DoStmt") and not l)}
+    if site.elems:
+        loops = {id(_copy_loop(tu, f, st, idx)[0]) for st, idx, _ in site.elems}
+        if len(loops) != 1:
+            raise AnalysisError("%s(): ma[] of `%s` is stored in %d loops; unclassifiable" % (fname, obj, len(loops)))
+        loop, bound, plus, start = _copy_loop(tu, f, site.elems[0][0], site.elems[0][1])
+        B, cexpr, cline = g.node_of(loop), bound, tu.line(loop)
+        if start > 0:
+            # n >= 1 for every Mobile Allocation of the domain and MAI ranges over 0..n-1: ma[0] is needed
+            L.ob("C07.R8", file, fname, key, want, "%s stored; ma[] by a loop that starts at index %d: ma[0..%d] are never copied" % (
+                ", ".join(stored), start, start - 1), False, cline)
+            return 1
+        K = lower(bound) if not plus else X.add(lower(bound), C(1))
+        how = "loop over i < %s" % ctext(bound) if not plus else "loop over i <= %s" % ctext(bound)
+    else:
+        call, sz = site.macopies[0]
+        B, cexpr, cline = g.node_of(call), sz, tu.line(call)
+        el = max(1, sizes.get("ma", 2) // max(ext, 1))
+        K = G.euclid(G.div_(lower(sz), C(el)))
+        how = "copy of `%s` bytes" % ctext(sz)
+    for fld in ("hsn", "maio"):
+        for node, _ in site.fields[fld]:
+            if gset(g.node_of(node)) != gset(A):
+                raise AnalysisError("%s(): `%s.%s` and `%s.n` are stored under different conditions; unclassifiable" % (fname, obj, fld, obj))
+    if gset(B) != gset(A):
+        raise AnalysisError("%s(): ma[] of `%s` is copied under other conditions than n is stored; unclassifiable" % (fname, obj))
+    Nn = lower(nst[0][1])
+    ntext = ctext(kids(nst[0][0])[0])
+    types = _symbol_types(tu, [cexpr, nst[0][1]], loc)
+    prev = V("previous " + ntext)
+    order = None
+    if V(ntext) in variables(K) | variables(Nn):
+        types[prev[1]] = types.get(ntext, "uint8_t")
+        if g.dominates(A, B) and A.id != B.id:
+            K = G.euclid(G.renorm(K, lambda t: Nn if t == V(ntext) else None))
+            order = "read after the store of n"
+        elif g.reachable(B, A) and not g.reachable(A, B):
+            K = G.renorm(K, lambda t: prev if t == V(ntext) else None)
+            order = "read BEFORE the new n is stored"
+        else:
+            raise AnalysisError("%s(): the copy into ma[] of `%s` reads `%s`, stored on some paths before and on others after it; "
+                                "unclassifiable" % (fname, obj, ntext))
+        Nn = G.renorm(Nn, lambda t: prev if t == V(ntext) else None)
+    st = _stored_texts(tu, f)
+    for v in sorted(variables(K) | variables(Nn), key=repr):
+        if v == prev:
+            continue
+        t = _overlaps(v[1], st - {ntext})
+        if t is not None:
+            raise AnalysisError("%s(): `%s`, which sizes the copy into ma[] of `%s` / is stored as n, is itself written (`%s`) in the "
+                                "function; unclassifiable" % (fname, v[1], obj, t))
+    try:
+        ok, txt = _decide_count(K, Nn, types, prev)
+    except AnalysisError as e:
+        raise AnalysisError("%s(): hopping descriptor `%s`: %s; unclassifiable" % (fname, obj, e))
+    L.ob("C07.R8", file, fname, key, want, "%s stored; ma[] by %s%s -- %s" % (
+        ", ".join(stored), _disp(how), " (`%s` %s)" % (_disp(ntext), order) if order else "", txt), ok, cline)
+    return 1
+
+
+def _reach_callees(tu, f):
+    """names of the functions defined in this file that f reaches through calls"""
+    defined = {n: d for n, d in tu.functions.items() if any(kind(c) == "CompoundStmt" for c in kids(d))}
+    seen, todo = set(), [f]
+    while todo:
+        for n in _callees(tu, todo.pop()):
+            if n in defined and n not in seen:
+                seen.add(n)
+                todo.append(defined[n])
+    return seen
+
+
+def r8_descriptor_writers(L, tier):
+    """C07.R8 decides a necessary condition of the firmware clause "the selected channel is MA[MAI] ... for the same
+    inputs": rfch_get_params() takes hsn, maio, n and ma[] from a struct l1s_h1 (l1s.dedicated.h1), so the channel
+    selected is the standard's for the *configured* parameters only if every site that writes such a descriptor -- the
+    live one and the one staged for a starting time -- installs a complete one: the whole struct, or hsn, maio and n
+    together with at least n entries of ma[] for the n it stores (an n taken over with fewer entries leaves
+    ma[copied..n-1] stale, and MAI ranges over 0..n-1).  Who-writes scan of the firmware layer1 translation units that
+    name a member of that type: every use of such an object is classified through clang's types and AST context
+    (_DescScan); per function and object the stores are related by dominance in the CFG and by folded terms: the
+    number of entries copied (loop bound / copy size over the element size) against the value stored in n, a read of
+    the destination's own n being the *previous* n when the copy runs before the store.  Differing terms are folded
+    for every valuation of the 8-bit fields they read (complete); a valuation of the property's domain (n in 1..64)
+    with fewer entries copied than n is the violation, reported with it.  Anything the scan cannot classify (pointer
+    escapes, a sequence split over functions, several stores) is ANALYSIS-ERROR, never a violation."""
+    tmp = tempfile.mkdtemp(prefix="c07r8-", dir=os.environ.get("TMPDIR") or "/var/tmp")
+    try:
+        # the stub include path of cfront has no <inttypes.h> (prim_freq.c prints with PRIu32): declarations-only stand-in,
+        # found through clang's own #include_next
+        with open(os.path.join(tmp, "inttypes.h"), "w") as fh:
+            fh.write("#include <stdint.h>\n#define PRIu32 \"u\"\n#define PRId32 \"d\"\n#define PRIx32 \"x\"\n"
+                     "#define PRIu16 \"u\"\n#define PRIu8 \"u\"\n#define PRIu64 \"llu\"\n")
+        d = os.path.join(L.repo, FW_LAYER1)
+        try:
+            names = sorted(x for x in os.listdir(d) if x.endswith(".c"))
+        except OSError as e:
+            raise AnalysisError("firmware layer1 directory unreadable: %s" % e)
+        head = TU(L.repo, "fw", "layer1/rfch.c", L=L)
+        members = {DESC}
+        for rec in head.records.values():
+            for c in walk(rec):
+                if kind(c) == "FieldDecl" and _is_desc(_qt(c)):
+                    members.add(c.get("name"))
+        L.unit(F_SYNC_H)
+        pat = re.compile(r"\b(%s)\b" % "|".join(re.escape(m) for m in sorted(members)))
+        nsites, nfiles, seen = 0, 0, set()
+        for name in names:
+            try:
+                with open(os.path.join(d, name), errors="replace") as fh:
+                    src = fh.read()
+            except OSError as e:
+                raise AnalysisError("%s unreadable: %s" % (name, e))
+            # which translation units to parse (tier quick): only a file that names a member of the descriptor type (or
+            # the type) can touch one without a pointer handed to it -- and pointers are followed from where they are taken
+            named = bool(pat.search(strip_comments(src)))
+            if tier != "thorough" and not named:
+                continue
+            try:
+                tu = head if name == "rfch.c" else TU(L.repo, "fw", "layer1/%s" % name, L=L, extra_flags=("-idirafter", tmp))
+            except AnalysisError as e:
+                if named:
+                    raise
+                L.extra.setdefault("descriptor_writer_scan_unparsed", []).append("%s: %s" % (name, str(e)[:120]))
+                continue
+            if DESC not in tu.records:
+                if named:
+                    raise AnalysisError("%s names a hopping descriptor but struct %s is not declared there" % (name, DESC))
+                continue                                # the type is not visible: no object of it can be touched
+            nfiles += 1
+            file = "%s/%s" % (FW_LAYER1, name)
+            scans = {}
+            for fn, fd in sorted(tu.functions.items()):
+                if not any(kind(c) == "CompoundStmt" for c in kids(fd)):
+                    continue
+                where = (fd.get("_file") or "", fn)
+                sc = _DescScan(tu, fd)
+                if sc.sites or sc.escapes:
+                    scans[fn] = (fd, sc, where)
+            writers = {fn for fn, (fd, sc, _) in scans.items() if any(s.writes() for s in sc.sites.values())}
+            for fn, (fd, sc, where) in sorted(scans.items()):
+                if where in seen:
+                    continue                            # an inline function of a header, met in an earlier file
+                seen.add(where)
+                if sc.escapes:
+                    raise AnalysisError("%s(): hopping descriptor: %s; unclassifiable" % (fn, "; ".join(sc.escapes[:2])))
+                if not any(s.writes() or s.delegated for s in sc.sites.values()):
+                    continue
+                L.fn(file, fn)
+                g = CCFG(tu, fd)
+                for obj in sorted(sc.sites):
+                    nsites += _desc_site(L, tu, file, fd, g, sc.sites[obj], sc, writers)
+        L.extra["descriptor_writer_scan"] = {"translation_units": nfiles, "sites": nsites, "members": sorted(members)}
+        L.floor("C07.R8", "sites that write a hopping descriptor (struct l1s_h1) in firmware layer1", nsites, 2)
+    finally:
+        shutil.rmtree(tmp, ignore_errors=True)
+
+
+# ------------------------------------------------------------------------------
 # R7: the simulator's channel selection, folded for witnesses
 
 class ObjEv(Ev):
@@ -1490,6 +2117,10 @@ def r7_witnesses(L, repo, spec):
         try:
             r = ev.run_block(resolve.body)
         except Raised as e:
+            if isinstance(e.node, (ast.Raise, ast.Assert)):
+                # an explicit raise / failed assertion reached with a frame number of the property's domain: no channel
+                # is selected for it (compared below like any other result)
+                return "<raises %s>" % e.cls
             raise AnalysisError("HoppingParams.resolve raises %s for FN = %d; the channel selection cannot be folded" % (e.cls, fn))
         except skip as e:
             raise Skip("HoppingParams.resolve: %s" % e)
@@ -1563,3 +2194,4 @@ def run(L, tier):
     L.stage(r6_py_returns, L, py_s)
     L.stage(r6_getters, L, repo)
     L.stage(r6_c_use, L, cs, spec["RNTABLE"])
+    L.stage(r8_descriptor_writers, L, tier)
